@@ -699,7 +699,7 @@ package pipeline
 //@   requires g != nil
 //@   assigns everything
 //@   ensures [steps-nonnil] ret == nil ==> g.Steps != nil
-//@   check [no-swallow] ret == nil ==> err == nil
+//@   check [no-swallow] ret == nil ==> local(err) == nil
 //@   note no-swallow: an error or warning from unmarshalling the group's fields (its nested steps included) is never dropped
 
 // the other custom unmarshalers: no panic (nil map writes, nil dereferences,
@@ -707,7 +707,7 @@ package pipeline
 //@ func (*CommandStep).UnmarshalOrdered
 //@   requires c != nil
 //@   assigns everything
-//@   check [no-swallow] ret == nil ==> err == nil
+//@   check [no-swallow] ret == nil ==> local(err) == nil
 //@ func (*UnknownStep).UnmarshalOrdered
 //@   requires u != nil
 //@   assigns u.Contents
